@@ -2955,9 +2955,12 @@ impl Interpreter {
         // guarded only while it runs; when it yields, finishes or throws they stay
         // reachable through the generator object.  Drop every guard pushed during this
         // resumption, otherwise each resumed generator leaves a root behind.
+        // Resuming a generator runs its body in a nested VM on the native stack
+        self.enter_native_reentry()?;
         let env_guard_depth = self.env_guards.len();
         let result = self.resume_bytecode_generator_inner(gen_state);
         self.env_guards.truncate(env_guard_depth);
+        self.native_reentry_depth -= 1;
         result
     }
 
@@ -3963,6 +3966,15 @@ impl Interpreter {
         // Every call that arrives here from native code runs a nested VM on the native
         // stack.  Script recursion routed through such calls (map -> callback -> map ...)
         // must end in a catchable error, not in a stack overflow of the embedding process.
+        self.enter_native_reentry()?;
+        let result = self.call_function_with_new_target_inner(callee, this_value, args, new_target);
+        self.native_reentry_depth -= 1;
+        result
+    }
+
+    /// Account for one more nested VM on the native stack; refuse when the budget is used up.
+    #[inline(never)]
+    fn enter_native_reentry(&mut self) -> Result<(), JsError> {
         let marker = 0u8;
         let here = &marker as *const u8 as usize;
         if self.native_reentry_depth == 0 {
@@ -3975,9 +3987,7 @@ impl Interpreter {
         {
             self.verif_max_reentry = self.verif_max_reentry.max(self.native_reentry_depth);
         }
-        let result = self.call_function_with_new_target_inner(callee, this_value, args, new_target);
-        self.native_reentry_depth -= 1;
-        result
+        Ok(())
     }
 
     fn call_function_with_new_target_inner(
